@@ -206,6 +206,9 @@ class Interp:
             base = self.eval(target.value, frame)
             idx = self.eval(target.slice, frame)
             self.ctx.event("item-store", (val_key(base), val_key(idx), v), frame.loc(target))
+            if isinstance(base, DictV) and isinstance(idx, StrV) and idx.s is not None:
+                base.items[idx.s] = v
+                return
             if isinstance(base, ListV) and base.kind == "lit" and isinstance(idx, Num) and idx.r.as_int() is not None:
                 base.items[idx.r.as_int()] = v
                 return
@@ -325,7 +328,9 @@ class Interp:
         if isinstance(v, MaybeV):
             if not fork:
                 return None
-            return not self.ctx.decide(("isnone", v.path), frame.loc(node))
+            if self.ctx.decide(("isnone", v.path), frame.loc(node)):
+                return False
+            return self.truth(opaque_of(v.ty, v.path, self.ctx), frame, node, fork)
         if not fork:
             return None
         return self.ctx.decide(("truth", key_str(val_key(v))), frame.loc(node))
